@@ -670,6 +670,16 @@ mod simd {
     macro_rules! backend_arr { (sse2 [ $($t:tt)* ]) => { &[ $($t)* ] }; ($o:ident [ $($t:tt)* ]) => { &[] }; }
     include!("suite.rs");
 }
+/// the same checks with `glam-assert` compiled in: none of these operations has a documented precondition, so a
+/// panic there is a failure
+#[cfg(not(feature = "core"))]
+mod asserting {
+    pub const VARIANT: &str = "simd+glam-assert";
+    use ::glam_assert as glam;
+    macro_rules! backend_items { (sse2 { $($t:tt)* }) => { $($t)* }; ($o:ident { $($t:tt)* }) => {}; }
+    macro_rules! backend_arr { (sse2 [ $($t:tt)* ]) => { &[ $($t)* ] }; ($o:ident [ $($t:tt)* ]) => { &[] }; }
+    include!("suite.rs");
+}
 #[cfg(not(feature = "core"))]
 mod scalar {
     pub const VARIANT: &str = "scalar";
@@ -694,6 +704,7 @@ fn main() {
     {
         subs.extend(simd::subs(&args));
         subs.extend(scalar::subs(&args));
+        subs.extend(asserting::subs(&args));
     }
     #[cfg(feature = "core")]
     {
